@@ -341,14 +341,14 @@ fn subs() -> Vec<Sub> {
         sub(
             "F/fault-x-difference",
             no_fixed,
-            (4000, 120_000),
+            (30_000, 400_000),
             |ctx: &RunCtx, _: Option<&()>| hedge_strategy(if ctx.tier == Tier::Quick { 256 } else { 1024 }, 16),
             oracle_f,
         ),
         sub(
             "R/fault-x-difference",
             no_fixed,
-            (400, 6000),
+            (3000, 25_000),
             |ctx: &RunCtx, _: Option<&()>| hedge_strategy(if ctx.tier == Tier::Quick { 64 } else { 256 }, 8),
             oracle_r,
         ),
